@@ -15,6 +15,7 @@ def dispatch (cmd : String) (args : List Sexp) : Option String :=
   | "cli.violations" => Driver.Cli.violations args
   | "unparse" => Driver.Printer.unparse args
   | "unparse.expr" => Driver.Printer.unparseExpr args
+  | "hoist.place" => Driver.Rename.hoistPlace args
   | "rename.assign" => Driver.Rename.assignCmd args
   | "ministring" => Driver.Strings.ministring args
   | "strlex" => Driver.Strings.strlex args
